@@ -233,6 +233,67 @@ Definition fetch_and_decode {A} (dec : list Z -> Z -> list A) (file : list Z) (n
   let gs := groups (sort_off ns) in
   dec_table dec (fetch_bytes file (byte_queries gs)) (chunk_table gs).
 
+(* ---------- the fetch strategies ----------
+   local sources and http_thread_executor_strategy fill the buffer in the order of `byte_queries`;
+   http_queue_strategy gets the ranges back in ANY order (`arrival`) and puts them into the buffer in ascending
+   offset order (results.sort(key = offset)): the chunk table must then be in ascending offset order as well *)
+Fixpoint ins_q (q : Z * Z) (l : list (Z * Z)) : list (Z * Z) :=
+  match l with
+  | [] => [q]
+  | m :: r => if fst q <=? fst m then q :: l else m :: ins_q q r
+  end.
+Definition sort_q (l : list (Z * Z)) : list (Z * Z) := fold_right ins_q [] l.
+
+Definition fetch_and_decode_queue {A} (dec : list Z -> Z -> list A) (file : list Z) (arrival : list (Z * Z))
+           (ns : list entry) : list A :=
+  let gs := groups (sort_off ns) in
+  if gen_queue_sorts_by_offset then dec_table dec (fetch_bytes file (sort_q arrival)) (chunk_table gs)
+  else dec_table dec (fetch_bytes file arrival) (chunk_table gs).
+
+(* in offset order every chunk ends before the next one begins (chunks of a file do not overlap) *)
+Fixpoint apart (l : list entry) : Prop :=
+  match l with
+  | [] => True
+  | x :: r => 0 <= e_size x /\ (forall y, In y r -> e_off x + e_size x <= e_off y) /\ apart r
+  end.
+Fixpoint apartb (l : list entry) : bool :=
+  match l with
+  | [] => true
+  | x :: r => (0 <=? e_size x) && forallb (fun y => e_off x + e_size x <=? e_off y) r && apartb r
+  end.
+
+(* ---------- the caller's Bounds object ----------
+   a state component: `Bounds.ensure_3d` builds a NEW Bounds for the query, the object the caller handed in is left
+   as it was and can be used again, on this file or on another one *)
+Definition ensure_3d_st (qb : qbox) (hz0 hz1 : Z) : qbox * option box :=
+  (if gen_ensure3d_fresh then qb
+   else match ensure_3d qb hz0 hz1 with Some b => Box3 (b_x0 b) (b_y0 b) (b_z0 b) (b_x1 b) (b_y1 b) (b_z1 b) | None => qb end,
+   ensure_3d qb hz0 hz1).
+
+(* one query of a history: its file (hierarchy, geometry, header z range, stored points) and its level argument; the
+   grid bounds are a function of the 3-D box the query works with *)
+Record qstep := mkStep { s_tree : tree; s_geom : geom; s_hz0 : Z; s_hz1 : Z; s_grid : option box -> qgrid;
+                         s_lv : levels; s_pts : entry -> list pt }.
+
+Definition query_st (s : qstep) (qb : qbox) : qbox * result (list pt) :=
+  let '(qb', ob) := ensure_3d_st qb (s_hz0 s) (s_hz1 s) in
+  (qb', match load_octree (fuel_bound (s_tree s)) (s_tree s) (s_geom s) ob (level_range (s_lv s)) with
+        | Err e => Err e
+        | Ok ns => Ok (match ob with None => fetch (s_pts s) ns | Some _ => filter (keep (s_grid s ob)) (fetch (s_pts s) ns) end)
+        end).
+
+(* the same Bounds object handed to one query after the other *)
+Fixpoint session (qb : qbox) (ss : list qstep) : qbox * list (result (list pt)) :=
+  match ss with
+  | [] => (qb, [])
+  | s :: r => let '(qb1, o) := query_st s qb in let '(qb2, os) := session qb1 r in (qb2, o :: os)
+  end.
+
+(* the query of one step with a Bounds object of its own *)
+Definition query_fresh (qb : qbox) (s : qstep) : result (list pt) :=
+  query (fuel_bound (s_tree s)) (s_tree s) (s_geom s) qb (s_hz0 s) (s_hz1 s) (s_grid s (ensure_3d qb (s_hz0 s) (s_hz1 s)))
+        (s_lv s) (s_pts s).
+
 (* ---------- driver entry point: everything at once ---------- *)
 Definition lookup_pts (tbl : list ((Z * Z * Z) * list pt)) (n : entry) : list pt :=
   match find (fun r => let '(o, s, c) := fst r in (o =? e_off n) && (s =? e_size n) && (c =? e_cnt n)) tbl with
